@@ -206,6 +206,15 @@ def check(run):
                         run.fail('D2', cons, f'{st}: accepted, builder now holds {after} references', wb, witness=dict(r=r, t=t, o=o))
                     elif not ok and fits:
                         run.fail('D2', cons, f'{st}: refused ({exc}) although {r}+{n} <= 4', wb, witness=dict(r=r, t=t, o=o))
+                    elif not ok and (after > 4 or nbits(it, b) > 1023):
+                        # a refused store must not leave the builder over capacity: the caller who catches the error could end such a cell
+                        run.fail('D2', f'{cons}[refusal leaves the builder over capacity]', f'{st}: the store raised but the builder now holds {after} reference(s) / {nbits(it, b)} bits (had {r} / 7): end_cell would yield a cell over capacity',
+                                 wb, witness=dict(r=r, t=t, o=o))
+                    elif not ok and (after != r or nbits(it, b) != 7):
+                        run.ok('D2', st)
+                        if op not in getattr(run, '_partial', set()):
+                            run.__dict__.setdefault('_partial', set()).add(op)
+                            run.info(f'{op}: a refused store leaves a partial write behind ({after} refs / {nbits(it, b)} bits instead of {r} / 7) - within capacity, not a violation of the property')
                     elif ok and after != r + n:
                         run.fail('D2', cons, f'{st}: builder holds {after} references, expected {r + n}', wb)
                     elif ok and op in ('store_slice', 'store_cell') and [x for x in it.getattr(b, 'refs').items[r:]] != kids[o:]:
@@ -242,6 +251,26 @@ def check(run):
             except RaiseEx:
                 got = False
             run.check(not got, 'D3', f'Builder.store_{kind}' if got else f'range:{kind}:width{n}', f'store_{kind}(1, {n}) accepted={got}', ws)
+
+    # variable-length integers and coins: the value range is [0, 256^(2^l - 1)) for VarUInteger, two's complement of that many bytes for VarInteger
+    for meth, lbits, cases in (('store_coins', None, [(0, True), (1, True), ((1 << 120) - 1, True), (1 << 120, False), (-1, False), (-(10 ** 18), False)]),
+                               ('store_var_uint', 4, [(0, True), ((1 << 120) - 1, True), (1 << 120, False), (-1, False), (-300, False)]),
+                               ('store_var_uint', 5, [((1 << 248) - 1, True), (1 << 248, False), (-1, False)]),
+                               ('store_var_int', 4, [(0, True), (-1, True), ((1 << 119) - 1, True), (-(1 << 119), True), (1 << 119, False), (-(1 << 119) - 1, False)])):
+        for v, fits in cases:
+            it = Interp(prog)
+            b = builder(it)
+            try:
+                if lbits is None:
+                    call(it, b, meth, K(v))
+                else:
+                    call(it, b, meth, K(v), K(lbits))
+                got = True
+            except RaiseEx:
+                got = False
+            run.evaluations += 1
+            run.check(got == fits, 'D3', f'Builder.{meth}' if got != fits else f'range:{meth}{lbits or ""}:{v if abs(v) < 1000 else ("-" if v < 0 else "") + "2^" + str(abs(v).bit_length())}',
+                      f'{meth}({v if abs(v) < 1 << 40 else hex(v)}{"" if lbits is None else ", " + str(lbits)}): {"accepted" if got else "rejected"}, must be {"accepted" if fits else "rejected (the value does not fit the field)"}', ws)
 
     # ---- D4 read bounds on every route
     wl = prog.where(prog.method('Slice', 'load_uint'))
